@@ -7,7 +7,7 @@
    rational coefficients c_S.  Canonical form: masks strictly increasing, no zero coefficient, Q components reduced.
 
    Pauli words and their multiplication table are REUSED from Disc/PauliAlgModel.v (property C51). *)
-From Coq Require Import List ZArith Bool QArith Qabs.
+From Coq Require Import List ZArith Bool QArith Qabs FMapPositive.
 From PLV Require Import Disc.PauliAlgModel.
 Import ListNotations.
 Open Scope Z_scope.
@@ -339,10 +339,31 @@ Definition matprod_ok (d : Z) (signs : list bool) : bool :=
   let w := map (fun s => (0, s)) signs in
   forallb (fun m => forallb (fun n => keqb (mentry M m n) (ladder_elem d w [m] [n])) (zrange d)) (zrange d).
 
-(* ------------------------------------------------------------------ correspondence *)
+(* ------------------------------------------------------------------ correspondence
+   the comparison uses finite maps keyed by an integer code of the (canonical, non-negative-wire) Pauli word *)
 Definition isent := list (list (Z * P1) * CQ).
-Fixpoint icoeff (s : isent) (u : word) : CQ :=
-  match s with [] => cq0 | (w, c) :: r => cqadd (if weqb (mkword w) u then c else cq0) (icoeff r u) end.
+Definition pcode (p : P1) : Z := match p with PI => 0 | PX => 1 | PY => 2 | PZ => 3 end.
+Definition wkey (w : word) : positive :=
+  Z.to_pos (1 + fold_right (fun e acc => acc + Z.shiftl (pcode (snd e)) (2 * fst e)) 0 w).
+
+Definition pm_addK (k : positive) (c : K) (m : PositiveMap.t K) : PositiveMap.t K :=
+  match PositiveMap.find k m with
+  | Some c' => PositiveMap.add k (kadd c' c) m
+  | None => PositiveMap.add k c m
+  end.
+Definition pm_addC (k : positive) (c : CQ) (m : PositiveMap.t CQ) : PositiveMap.t CQ :=
+  match PositiveMap.find k m with
+  | Some c' => PositiveMap.add k (cqadd c' c) m
+  | None => PositiveMap.add k c m
+  end.
+Definition model_map (ms : ksent) : PositiveMap.t K :=
+  fold_left (fun m e => pm_addK (wkey (fst e)) (snd e) m) ms (PositiveMap.empty K).
+Definition impl_map (imp : isent) : PositiveMap.t CQ :=
+  fold_left (fun m e => pm_addC (wkey (mkword (fst e))) (snd e) m) imp (PositiveMap.empty CQ).
+Definition findK (m : PositiveMap.t K) (k : positive) : K :=
+  match PositiveMap.find k m with Some c => c | None => k0 end.
+Definition findC (m : PositiveMap.t CQ) (k : positive) : CQ :=
+  match PositiveMap.find k m with Some c => c | None => cq0 end.
 
 Definition case := (mapkind * Z * bsent * option isent)%type.
 
@@ -351,8 +372,10 @@ Definition check_case (c : case) : bool :=
   match map_sent kd d s, expected with
   | None, None => true
   | Some ms, Some imp =>
-      forallb (fun w => cqclose (kapprox (kscoeff ms w)) (icoeff imp w))
-              (map fst ms ++ map (fun e => mkword (fst e)) imp)
+      let mm := model_map ms in
+      let im := impl_map imp in
+      forallb (fun kv => cqclose (kapprox (snd kv)) (findC im (fst kv))) (PositiveMap.elements mm) &&
+      forallb (fun kv => cqclose (kapprox (findK mm (fst kv))) (snd kv)) (PositiveMap.elements im)
   | _, _ => false
   end.
 
@@ -365,8 +388,10 @@ Definition check_case_exact (c : case) : bool :=
   match map_sent kd d s, expected with
   | None, None => true
   | Some ms, Some imp =>
+      let mm := model_map ms in
+      let im := impl_map imp in
       rational_only ms &&
-      forallb (fun w => keqb (kscoeff ms w) (kofCQ (icoeff imp w)))
-              (map fst ms ++ map (fun e => mkword (fst e)) imp)
+      forallb (fun kv => keqb (snd kv) (kofCQ (findC im (fst kv)))) (PositiveMap.elements mm) &&
+      forallb (fun kv => keqb (findK mm (fst kv)) (kofCQ (snd kv))) (PositiveMap.elements im)
   | _, _ => false
   end.
